@@ -155,4 +155,97 @@ def real_potential(rng):
         rm = rd + round(rng.uniform(0.4, 0.8), 2)
         ra = rm + round(rng.uniform(0.4, 0.8), 2)
         f = pf.buck4(A, rho, C, rd, rm, ra)
-    return "%s#%d" % (kind, rng.randint(0, 10 ** 6)), f, (lambda r, f=f: richardson(f, r))
+    bounds = []
+    if kind == "multi":
+        bounds = [s]
+    elif kind == "buck4":
+        bounds = [rd, rm, ra]
+
+    def dref(r, f=f, bounds=bounds):
+        """independent derivative of the energy callable; None within the stencil of a range/spline boundary"""
+        if any(abs(r - b) < 3e-3 * max(abs(r), 0.05) for b in bounds):
+            return None
+        return richardson(f, r)
+    return "%s#%d" % (kind, rng.randint(0, 10 ** 6)), f, dref
+
+
+# ---------------------------------------------------------------------------------------------------
+import re  # noqa: E402
+_DL_DATA = re.compile(r"^( [ -]\d\.\d{7}e[+-]\d{2,3})+$")
+
+
+class FormatError(Exception):
+    pass
+
+
+def dlpoly_raw(text):
+    """DL_POLY TABLE -> (delpot, cutpot, ngrid, [(labelA, labelB, [record strings...])]) ; checks the fixed-width layout"""
+    lines = text.split("\n")
+    if lines[-1] != "":
+        raise FormatError("file does not end with a newline")
+    lines = lines[:-1]
+    if len(lines) < 2 or lines[0].strip() != "":
+        raise FormatError("first line is not the blank title record")
+    h = lines[1]
+    if len(h) != 40:
+        raise FormatError("header record has length %d, expected 15+15+10" % len(h))
+    delpot, cutpot, ngrid = h[0:15], h[15:30], h[30:40]
+    blocks = []
+    for l in lines[2:]:
+        if _DL_DATA.match(l):
+            if not blocks:
+                raise FormatError("data record before any label record")
+            fields = [l[i:i + 15] for i in range(0, len(l), 15)]
+            if len(l) % 15 != 0:
+                raise FormatError("data record not made of 15-character fields: %r" % l)
+            blocks[-1][2].append(fields)
+        else:
+            if len(l) != 16:
+                raise FormatError("label record %r is not two 8-character fields" % l)
+            blocks.append((l[0:8].strip(), l[8:16].strip(), []))
+    return delpot.strip(), cutpot.strip(), int(ngrid), blocks
+
+
+def dlpoly_tokens(text, mode, analytic):
+    delpot, cutpot, ngrid, blocks = dlpoly_raw(text)
+    dq = dec(delpot)
+    out = []
+    for bi, (a, b, recs) in enumerate(blocks):
+        if len(recs) % 2 != 0:
+            raise FormatError("block %s %s has an odd number of records (%d): cannot be ngrid energies + ngrid forces" % (a, b, len(recs)))
+        half = len(recs) // 2
+        en, fo = [], []
+        idx = 0
+        evals = []
+        for rec in recs[:half]:
+            g = []
+            for fld in rec:
+                idx += 1
+                v = dec(fld.strip())
+                evals.append(v)
+                if mode == "api":
+                    g.append(decode16(v))
+                else:
+                    fid = int(v // 64)
+                    g.append(slot(fid, (v - 64 * fid) / fid) if fid > 0 else ["?", fld.strip()])
+            en.append(g)
+        idx = 0
+        for rec in recs[half:]:
+            g = []
+            for fld in rec:
+                idx += 1
+                v = dec(fld.strip())
+                rk = idx * dq
+                if mode == "api":
+                    if analytic[bi]:
+                        g.append(decode16(v, force=True))
+                    else:
+                        e = evals[idx - 1] if idx - 1 < len(evals) else Fr(0)
+                        tol = Fr(2) * Fr(2) ** -52 * abs(e) * 10 ** 6 * rk + abs(v) * Fr(6, 10 ** 8) + Fr(1, 10 ** 12)
+                        g.append(decode16(e) if abs(v + rk) <= tol else ["?", fld.strip()])
+                else:
+                    q = -v / rk if rk != 0 else Fr(0)
+                    g.append(slot(int(q), rk) if (q.denominator == 1 and q > 0) else ["?", fld.strip()])
+            fo.append(g)
+        out.append(dict(a=a, b=b, energies=en, forces=fo))
+    return dict(delpot=fq(dec(delpot)), cutpot=fq(dec(cutpot)), ngrid=ngrid, blocks=out)
